@@ -921,6 +921,19 @@ def r11_none_only_from_inner(ctx, F):
             if not inner:
                 bad.append(prov.show(a, maxdepth=2)[:60])
         n += k
+        if bad and all(b_.startswith('std::option::Option::None') for b_ in bad):
+            # a literal None is still the inner iterator's answer when it is written under the None edge of a test of that very call
+            # (`let Some(attrs) = self.difficulty.nth(n) else { return None };`)
+            lits = [bi for bi, si, s_ in f.assigns() if s_['rv']['k'] == 'agg' and s_['rv'].get('adt') == 'std::option::Option' and s_['rv'].get('variant') == 'None'
+                    and any('PerformanceAttributes' in str(t_) for t_ in (s_['rv'].get('targs') or []))]
+
+            def _under_inner_none(bi):
+                for c_, lab in arms.guards_of(f, bi):
+                    if 'None' in lab.split('|') and any(x[0] == 'call' and x[1].get('name') == 'nth' and 'Gradual' in (x[1].get('path') or '') for x in prov.walk(c_, limit=400)):
+                        return True
+                return False
+            if lits and all(_under_inner_none(bi) for bi in lits):
+                bad = []
         ctx.require(not bad, 'C15-R11', 'none-from-inner:' + short, '%s::nth: each of the %d alternatives of its result comes from the inner iterator\'s nth()' % (short, k), f.where(),
                     bad='%s::nth can answer `%s` without asking the inner iterator: it stops on a condition of its own while len() still reports the inner iterator\'s '
                         'remaining count — None no longer means "nothing remains"' % (short, '` / `'.join(bad)))
